@@ -333,6 +333,11 @@ func (s *Applier) applyRecoverOperation(anchoredOp *operation.AnchoredOperation,
 		return result, nil
 	}
 
+	if op.Delta.UpdateCommitment == rm.RecoveryCommitment {
+		// the operation hands the commitment that it consumes on as the next update commitment
+		return nil, fmt.Errorf("recover operation re-commits to the key it reveals")
+	}
+
 	result.UpdateCommitment = op.Delta.UpdateCommitment
 
 	// verify anchor from and until time against anchoring time
